@@ -223,6 +223,7 @@ impl Typed for C17 {
             }
             if dropped_expected > 0 {
                 ctx.count("probe.run_with_oversize_datagram");
+                ctx.add("fault.oversize_datagram", dropped_expected);
             }
             if expected.len() >= 3 {
                 ctx.nontrivial();
